@@ -72,15 +72,16 @@ Proof. destruct s; reflexivity. Qed.
 Lemma step_n_is_ins s : N.eqb (step_n s) 3 = is_ins s.
 Proof. destruct s; reflexivity. Qed.
 
-Section GlobalLoop.
+Section DP.
 Variable w : byte -> byte -> Z.
 Variable m : matrix.
 Variables a b : bytes.
 Hypothesis Hag : agrees w (get m) a b.
 Variable R : Type.
+Variable clamp : cell -> cell.
 
 Let bn : Z := bn_of b.
-Let spec : list cell := concat (table_spec w clamp_none a b).
+Let spec : list cell := concat (table_spec w clamp a b).
 Let n : nat := (S (length a) * S (length b))%nat.
 
 Definition inv (i : Z) (blocks : list imp_align_block) : Prop :=
@@ -103,10 +104,10 @@ Qed.
 
 Lemma lookup_prev blocks i pa ra pb rb : inv i blocks -> rev a = pa ++ ra -> rev b = pb ++ rb ->
   idx bn ra rb < i ->
-  nth_error blocks (Z.to_nat (idx bn ra rb)) = Some (blk_of (pcell w clamp_none ra rb)).
+  nth_error blocks (Z.to_nat (idx bn ra rb)) = Some (blk_of (pcell w clamp ra rb)).
 Proof.
   intros (_ & Hp & _) Ha Hb Hlt. pose proof (idx_bound pa ra pb rb Ha Hb).
-  rewrite Hp by lia. unfold spec, bn. rewrite (blocks_lookup w clamp_none a b pa ra pb rb Ha Hb). reflexivity.
+  rewrite Hp by lia. unfold spec, bn. rewrite (blocks_lookup w clamp a b pa ra pb rb Ha Hb). reflexivity.
 Qed.
 
 Lemma set_preserves_inv_prefix blocks i v : inv i blocks -> 0 <= i < Z.of_nat n ->
@@ -121,6 +122,94 @@ Proof.
   - intros k Hk. rewrite nth_error_set_nth_neq by lia. apply Hz. lia.
 Qed.
 
+
+
+Variable body : Z -> list imp_align_block -> res (list imp_align_block) R.
+Hypothesis Hcell : forall blocks pa ra pb rb, rev a = pa ++ ra -> rev b = pb ++ rb ->
+  inv (idx bn ra rb) blocks ->
+  body (idx bn ra rb) blocks = Next (set_nth blocks (Z.to_nat (idx bn ra rb)) (blk_of (pcell w clamp ra rb))).
+
+Lemma split_index (j : nat) : (j < n)%nat ->
+  exists pa ra pb rb, rev a = pa ++ ra /\ rev b = pb ++ rb /\ idx bn ra rb = Z.of_nat j.
+Proof.
+  intros Hj. set (bnn := S (length b)).
+  exists (rev (skipn (j / bnn) a)), (rev (firstn (j / bnn) a)), (rev (skipn (j mod bnn) b)), (rev (firstn (j mod bnn) b)).
+  split; [|split].
+  - rewrite <- rev_app_distr, firstn_skipn. reflexivity.
+  - rewrite <- rev_app_distr, firstn_skipn. reflexivity.
+  - unfold idx. rewrite !rev_length, !firstn_length.
+    assert (j / bnn <= length a)%nat.
+    { unfold n in Hj. fold bnn in Hj. apply Nat.lt_succ_r. apply Nat.div_lt_upper_bound; unfold bnn; lia. }
+    assert (j mod bnn < bnn)%nat by (apply Nat.mod_upper_bound; unfold bnn; lia).
+    rewrite !Nat.min_l by (unfold bnn in *; lia).
+    unfold bn, bn_of. pose proof (Nat.div_mod j bnn ltac:(unfold bnn; lia)) as E. unfold bnn in *. nia.
+Qed.
+
+Lemma spec_length : length spec = n.
+Proof. unfold spec, n. apply blocks_length. Qed.
+
+Lemma fill_loop : forall cnt (j : nat) blocks, (j + cnt = n)%nat -> inv (Z.of_nat j) blocks ->
+  exists B, go_iter (body) (zseq (Z.of_nat j) cnt) blocks = Next B /\ inv (Z.of_nat n) B.
+Proof.
+  induction cnt as [|cnt IH]; intros j blocks Hj Hinv.
+  - exists blocks. split; [reflexivity|]. replace n with j by lia. exact Hinv.
+  - rewrite zseq_cons. cbn [go_iter].
+    destruct (split_index j ltac:(lia)) as (pa & ra & pb & rb & Ha & Hb & Hi).
+    replace (body (Z.of_nat j) blocks) with (body (idx bn ra rb) blocks) by (rewrite Hi; reflexivity).
+    rewrite <- Hi in Hinv.
+    rewrite (Hcell blocks pa ra pb rb Ha Hb Hinv).
+    replace (Z.of_nat j + 1) with (Z.of_nat (S j)) by lia.
+    apply IH; [lia|]. replace (Z.of_nat (S j)) with (idx bn ra rb + 1) by lia.
+    apply set_preserves_inv_prefix; [exact Hinv|lia|].
+    unfold spec, bn. apply (blocks_lookup w clamp a b pa ra pb rb Ha Hb).
+Qed.
+
+Lemma nth_error_ext' {A} (l1 l2 : list A) : (forall k, nth_error l1 k = nth_error l2 k) -> l1 = l2.
+Proof.
+  revert l2. induction l1 as [|x l1 IH]; intros [|y l2] H; try reflexivity; try (specialize (H 0%nat); discriminate).
+  pose proof (H 0%nat) as H0. cbn in H0. injection H0 as <-. f_equal. apply IH. intros k. exact (H (S k)).
+Qed.
+
+Lemma inv_full B : inv (Z.of_nat n) B -> B = map blk_of spec.
+Proof.
+  intros (Hl & Hp & _). apply nth_error_ext'. intros k. rewrite nth_error_map.
+  destruct (Nat.lt_ge_cases k n) as [Hk|Hk].
+  - apply Hp. lia.
+  - rewrite (proj2 (nth_error_None B k)) by lia.
+    rewrite (proj2 (nth_error_None spec k)) by (rewrite spec_length; lia). reflexivity.
+Qed.
+
+Lemma inv_init : inv (Z.of_nat 0) (repeat zero_block n).
+Proof.
+  split; [apply repeat_length|split].
+  - intros k Hk. cbn in Hk. lia.
+  - intros k Hk. apply nth_error_repeat. lia.
+Qed.
+
+(* the whole loop: the table of the model *)
+Lemma dp_fill :
+  go_iter (body) (zseq 0 n) (repeat zero_block n) = Next (map blk_of spec).
+Proof.
+  destruct (fill_loop n 0 (repeat zero_block n) eq_refl inv_init) as (B & HB & Hinv).
+  change (Z.of_nat 0) with 0 in HB. rewrite HB. f_equal. apply inv_full. exact Hinv.
+Qed.
+
+End DP.
+
+
+Section GlobalCell.
+Variable w : byte -> byte -> Z.
+Variable m : matrix.
+Variables a b : bytes.
+Hypothesis Hag : agrees w (get m) a b.
+Variable R : Type.
+Notation bn := (bn_of b).
+Notation n := (S (length a) * S (length b))%nat.
+Notation inv := (inv w a b clamp_none).
+Notation get_ok := (get_ok w m a b Hag).
+Notation idx_bound := (idx_bound a b).
+Notation lookup_prev := (lookup_prev w a b clamp_none).
+
 Lemma global_cell blocks pa ra pb rb : rev a = pa ++ ra -> rev b = pb ++ rb ->
   inv (idx bn ra rb) blocks ->
   global_body (R := R) a b m bn (idx bn ra rb) blocks
@@ -129,13 +218,13 @@ Proof.
   intros Ha Hb Hinv.
   pose proof (idx_bound pa ra pb rb Ha Hb) as Hi.
   pose proof (rev_suffix_length _ _ _ Ha) as Hla. pose proof (rev_suffix_length _ _ _ Hb) as Hlb.
-  assert (Hbn : Z.of_nat (length rb) < bn) by (unfold bn, bn_of; lia).
-  assert (Hbn0 : bn <> 0) by (unfold bn, bn_of; lia).
+  assert (Hbn : Z.of_nat (length rb) < bn) by (unfold bn_of; lia).
+  assert (Hbn0 : bn <> 0) by (unfold bn_of; lia).
   assert (Hlen : go_len blocks = Z.of_nat n) by (unfold go_len; destruct Hinv as (-> & _); reflexivity).
   assert (Hcur : nth_error blocks (Z.to_nat (idx bn ra rb)) = Some zero_block).
   { destruct Hinv as (_ & _ & Hz). apply Hz. lia. }
   assert (HGG : imp_align_SubstitutionMatrix_Get m 255%N 255%N = Ret (w Gap Gap)) by (apply get_ok; left; reflexivity).
-  unfold global_body. unfold go_quot, go_rem. destruct (Z.eqb_spec bn 0); [contradiction|].
+  unfold global_body. unfold go_quot, go_rem. destruct (Z.eqb_spec bn 0) as [Ez|_]; [contradiction|].
   rewrite (idx_quot bn ra rb Hbn), (idx_rem bn ra rb Hbn). cbv zeta.
   set (i := idx bn ra rb) in *.
   destruct ra as [|x ra'], rb as [|y rb']; cbn [length]; change (Z.of_nat 0) with 0.
@@ -183,7 +272,7 @@ Proof.
     { replace (i - bn) with (idx bn ra' []) by (unfold i, idx; cbn [length]; lia).
       apply (lookup_prev blocks i (pa ++ [x]) ra' pb [] Hinv Ha' Hb). unfold i, idx. cbn [length]. lia. }
     assert (Hibn : 0 <= i - bn) by (unfold i, idx; cbn [length]; nia).
-    assert (Hbnpos : 0 < bn) by (unfold bn, bn_of; lia).
+    assert (Hbnpos : 0 < bn) by (unfold bn_of; lia).
     rewrite (go_index_some blocks i zero_block) by (first [lia | exact Hcur]).
     rewrite (go_set_ok blocks i) by lia.
     set (B1 := set_nth blocks (Z.to_nat i) _).
@@ -218,7 +307,7 @@ Proof.
     assert (Ha' : rev a = (pa ++ [x]) ++ ra') by (rewrite <- app_assoc; exact Ha).
     assert (Hb' : rev b = (pb ++ [y]) ++ rb') by (rewrite <- app_assoc; exact Hb).
     assert (Hibn : 0 <= i - bn - 1) by (unfold i, idx; cbn [length]; nia).
-    assert (Hbnpos : 0 < bn) by (unfold bn, bn_of; lia).
+    assert (Hbnpos : 0 < bn) by (unfold bn_of; lia).
     assert (Hdiag : nth_error blocks (Z.to_nat (i - bn - 1)) = Some (blk_of (pcell w clamp_none ra' rb'))).
     { replace (i - bn - 1) with (idx bn ra' rb') by (unfold i, idx; cbn [length]; lia).
       apply (lookup_prev blocks i (pa ++ [x]) ra' (pb ++ [y]) rb' Hinv Ha' Hb'). unfold i, idx. cbn [length]. lia. }
@@ -257,73 +346,12 @@ Proof.
     destruct (is_del (snd cU)), (is_ins (snd cL)); cbn [negb]; rewrite ?Z.add_0_r; reflexivity.
 Qed.
 
-
-Lemma split_index (j : nat) : (j < n)%nat ->
-  exists pa ra pb rb, rev a = pa ++ ra /\ rev b = pb ++ rb /\ idx bn ra rb = Z.of_nat j.
-Proof.
-  intros Hj. set (bnn := S (length b)).
-  exists (rev (skipn (j / bnn) a)), (rev (firstn (j / bnn) a)), (rev (skipn (j mod bnn) b)), (rev (firstn (j mod bnn) b)).
-  split; [|split].
-  - rewrite <- rev_app_distr, firstn_skipn. reflexivity.
-  - rewrite <- rev_app_distr, firstn_skipn. reflexivity.
-  - unfold idx. rewrite !rev_length, !firstn_length.
-    assert (j / bnn <= length a)%nat.
-    { unfold n in Hj. fold bnn in Hj. apply Nat.lt_succ_r. apply Nat.div_lt_upper_bound; unfold bnn; lia. }
-    assert (j mod bnn < bnn)%nat by (apply Nat.mod_upper_bound; unfold bnn; lia).
-    rewrite !Nat.min_l by (unfold bnn in *; lia).
-    unfold bn, bn_of. pose proof (Nat.div_mod j bnn ltac:(unfold bnn; lia)) as E. unfold bnn in *. nia.
-Qed.
-
-Lemma spec_length : length spec = n.
-Proof. unfold spec, n. apply blocks_length. Qed.
-
-Lemma fill_loop : forall cnt (j : nat) blocks, (j + cnt = n)%nat -> inv (Z.of_nat j) blocks ->
-  exists B, go_iter (global_body (R := R) a b m bn) (zseq (Z.of_nat j) cnt) blocks = Next B /\ inv (Z.of_nat n) B.
-Proof.
-  induction cnt as [|cnt IH]; intros j blocks Hj Hinv.
-  - exists blocks. split; [reflexivity|]. replace n with j by lia. exact Hinv.
-  - rewrite zseq_cons. cbn [go_iter].
-    destruct (split_index j ltac:(lia)) as (pa & ra & pb & rb & Ha & Hb & Hi).
-    replace (global_body (R := R) a b m bn (Z.of_nat j) blocks) with (global_body (R := R) a b m bn (idx bn ra rb) blocks) by (rewrite Hi; reflexivity).
-    rewrite <- Hi in Hinv.
-    rewrite (global_cell blocks pa ra pb rb Ha Hb Hinv).
-    replace (Z.of_nat j + 1) with (Z.of_nat (S j)) by lia.
-    apply IH; [lia|]. replace (Z.of_nat (S j)) with (idx bn ra rb + 1) by lia.
-    apply set_preserves_inv_prefix; [exact Hinv|lia|].
-    unfold spec, bn. apply (blocks_lookup w clamp_none a b pa ra pb rb Ha Hb).
-Qed.
-
-Lemma nth_error_ext' {A} (l1 l2 : list A) : (forall k, nth_error l1 k = nth_error l2 k) -> l1 = l2.
-Proof.
-  revert l2. induction l1 as [|x l1 IH]; intros [|y l2] H; try reflexivity; try (specialize (H 0%nat); discriminate).
-  pose proof (H 0%nat) as H0. cbn in H0. injection H0 as <-. f_equal. apply IH. intros k. exact (H (S k)).
-Qed.
-
-Lemma inv_full B : inv (Z.of_nat n) B -> B = map blk_of spec.
-Proof.
-  intros (Hl & Hp & _). apply nth_error_ext'. intros k. rewrite nth_error_map.
-  destruct (Nat.lt_ge_cases k n) as [Hk|Hk].
-  - apply Hp. lia.
-  - rewrite (proj2 (nth_error_None B k)) by lia.
-    rewrite (proj2 (nth_error_None spec k)) by (rewrite spec_length; lia). reflexivity.
-Qed.
-
-Lemma inv_init : inv (Z.of_nat 0) (repeat zero_block n).
-Proof.
-  split; [apply repeat_length|split].
-  - intros k Hk. cbn in Hk. lia.
-  - intros k Hk. apply nth_error_repeat. lia.
-Qed.
-
-(* the whole loop of Global: the table of the model *)
 Lemma global_fill :
-  go_iter (global_body (R := R) a b m bn) (zseq 0 n) (repeat zero_block n) = Next (map blk_of spec).
-Proof.
-  destruct (fill_loop n 0 (repeat zero_block n) eq_refl inv_init) as (B & HB & Hinv).
-  change (Z.of_nat 0) with 0 in HB. rewrite HB. f_equal. apply inv_full. exact Hinv.
-Qed.
+  go_iter (global_body (R := R) a b m bn) (zseq 0 n) (repeat zero_block n)
+  = Next (map blk_of (concat (table_spec w clamp_none a b))).
+Proof. apply dp_fill. exact global_cell. Qed.
 
-End GlobalLoop.
+End GlobalCell.
 
 (* ---- Global -------------------------------------------------------------------------------------- *)
 Theorem imp_Global_ok fuel m a b steps s : covers m a b ->
